@@ -7,6 +7,7 @@ models of it), real CVSS4.__init__ executed symbolically in each fork, oracle
 """
 
 import sys
+import os
 import time
 from fractions import Fraction
 
@@ -170,11 +171,19 @@ def conformance4(sess, chk, impl_v, n):
                 return
 
 
+def task_label(t):
+    label = "mv=" + "".join(str(x) for x in t[0])
+    if len(t) > 1 and t[1] is not None:
+        label += "[d4=%s]" % (t[1] if not isinstance(t[1], tuple) else "rest")
+    return label
+
+
 def main(pid="C02"):
     chk, feasible = C.guarded(enumerate_macrovectors, ()) if False else enumerate_macrovectors()
     chk.pid = pid
     from spec import cvss4_spec as S4
 
+    nfeasible = len(feasible)
     tasks = []
     for d in feasible:
         if S4.EQ4_DEPTH[d[3]] * S4.EQ36_DEPTH[(d[2], d[5])] >= 35:
@@ -186,21 +195,60 @@ def main(pid="C02"):
             tasks.append((d, ("rest", ks)))
         else:
             tasks.append((d,))
+    all_tasks = list(tasks)
+    skipped_heavy = 0
+    if C.tier() == "quick" and not os.environ.get("VERIF_C02_ALL"):
+        # the complete run costs about 25 minutes on 14 cores (thorough tier).  The check run on
+        # every change keeps the table lemmas complete and executes a seeded sample of the fork
+        # tasks, chosen with the per-task costs measured in the last complete run
+        # (harness/c02_costs.json): tasks above 90 s are left to the thorough tier, the rest is
+        # shuffled by the seed and taken up to a fixed total of estimated CPU seconds.
+        import json
+        import random
+
+        try:
+            costs = json.load(open(os.path.join(os.path.dirname(os.path.abspath(__file__)), "c02_costs.json")))
+        except Exception:  # noqa: BLE001
+            costs = {}
+        rng = random.Random(C.seed())
+        order = list(tasks)
+        rng.shuffle(order)
+        budget = float(os.environ.get("VERIF_C02_BUDGET_S", "3600"))
+        picked, spent = [], 0.0
+        for t in order:
+            c = costs.get(task_label(t), 4.0) + 2.5
+            if c > 90:
+                skipped_heavy += 1
+                continue
+            if spent + c > budget:
+                continue
+            picked.append(t)
+            spent += c
+        tasks = sorted(picked, key=lambda t: -costs.get(task_label(t), 4.0))
+    chk.extra["fork_tasks_total"] = len(all_tasks)
+    chk.extra["fork_tasks_left_to_thorough_tier_as_too_costly"] = skipped_heavy
     chk.extra["fork_tasks"] = len(tasks)
     for r in C.run_named_tasks("harness.tables4", [("task_tables", (0,))]):
         chk.absorb_dict(r)
     results = C.run_tasks(fork, tasks)
     for r in results:
         chk.absorb_dict(r)
-    chk.extra["macrovectors_feasible"] = len(feasible)
+    chk.extra["macrovectors_feasible"] = nfeasible
     chk.input_model = (
         "M-ASSIGN over all 32 metrics of v4.0 (the six supplemental metrics included); the real "
         "constructor runs on the canonical-order structured vector string; case split over the %d feasible "
         "macrovectors (feasibility and exhaustiveness of the split solver-decided); in each fork the fork "
-        "condition is asserted in the solver and simulation patterns are sampled from its models." % len(feasible)
+        "condition is asserted in the solver and simulation patterns are sampled from its models." % nfeasible
     )
-    chk.bounds = ["none on the domain: all assignments of all 32 metrics (all X / override spellings, all supplemental values) are covered symbolically"]
-    chk.outside = ["non-canonical field order (C05)", "strings outside the grammar (C04)"]
+    if len(tasks) == len(all_tasks):
+        chk.bounds = ["none on the domain: all assignments of all 32 metrics (all X / override spellings, all supplemental values) are covered symbolically"]
+        chk.outside = ["non-canonical field order (C05)", "strings outside the grammar (C04)"]
+    else:
+        mvs = sorted({"".join(str(x) for x in t[0]) for t in tasks})
+        chk.bounds = ["quick tier: the table lemmas (lookup table = official table, MAX_COMPOSED / MAX_SEVERITY = derived from the EQ definitions) and the case split are complete; the constructor is executed in a seeded sample of %d of the %d fork tasks "
+                      "(seed %s; they touch %d of the %d macrovectors), in each of them for all assignments of all 32 metrics compatible with the fork; %d tasks measured above 90 s are left to the thorough tier, which runs all %d"
+                      % (len(tasks), len(all_tasks), C.seed(), len(mvs), nfeasible, skipped_heavy, len(all_tasks))]
+        chk.outside = ["quick tier: the scoring algorithm on the assignments of the %d fork tasks not in this run's sample" % (len(all_tasks) - len(tasks)), "non-canonical field order (C05)", "strings outside the grammar (C04)"]
     chk.assumptions = [
         "pysymex interprets the Python subset faithfully (validated against the real library on simulation patterns in every fork)",
         "highest-severity vectors and depths of the oracle are re-derived in every run from the EQ definitions (harness/tables4.py: Pareto-maximal members, largest distance + 1) and compared with the oracle's typed tables and with MAX_COMPOSED / MAX_SEVERITY of the current source",
